@@ -106,4 +106,4 @@ def search(binary, limit=None):
             finally:
                 shutil.rmtree(d, ignore_errors=True)
     return {"found": False, "evaluations": evaluations,
-            "searched": "%d kill points (every openat/write/fsync/unlink on a store file) over %d histories with rollovers, merges and reopens; after each kill the directory was reopened and compared with the map model" % (evaluations, len(HISTORIES))}
+            "searched": "%d kill points (every openat/write/fsync/unlink on a store file) over %d histories with rollovers, merges and reopens; after each kill the directory was reopened and compared with the map model, further operations were acknowledged, and a second restart was compared again" % (evaluations, len(HISTORIES))}
